@@ -90,7 +90,7 @@ def run(ctx):
     # anchor: the filter really filters
     acf = ic.decorate_fn
     ctx.check(any(isinstance(c, ast.Call) and call_name(c) == "filter_issues_by_severity" for c in walk_no_nested(acf.node))
-              and "_check_for_warnings" in norm(acf.node), "R12.3", acf.qualname, "filter", loc(acf, acf.node),
+              and "check_for_warnings" in norm(acf.node), "R12.3", acf.qualname, "filter", loc(acf, acf.node),
               "add_context_and_filter no longer filters by severity when warnings are off", desc="add_context_and_filter filters warnings")
     fbs = prog.find_function("ErrorHandler.filter_issues_by_severity")
     cmp_ok = any(isinstance(c, ast.Compare) and isinstance(c.ops[0], ast.LtE) and "severity" in norm(c) for c in ast.walk(fbs.node))
@@ -133,7 +133,26 @@ def run(ctx):
     gk = next((g for g in (_key_function(c) for c in sorts) if g is not None), None)
     if gk is not None:
         iters = [lp.iter for lp in ast.walk(gk.node) if isinstance(lp, (ast.For, ast.comprehension))]
-        ctx.check(any(norm(i) == "default_sort_list" for i in iters), "R12.4", gk.qualname, "iteration", loc(gk, gk.node),
+
+        def in_list_order(e, depth=0):
+            # default_sort_list itself, or a sequence built from it element by element in its order (possibly pre-computed
+            # in the enclosing function or at module level)
+            if norm(e) == "default_sort_list":
+                return True
+            if depth > 3:
+                return False
+            if isinstance(e, ast.Call) and isinstance(e.func, ast.Name) and e.func.id in ("list", "tuple", "enumerate", "zip", "iter") and e.args:
+                return in_list_order(e.args[0], depth + 1)
+            if isinstance(e, (ast.ListComp, ast.GeneratorExp)) and len(e.generators) == 1 and not e.generators[0].ifs:
+                return in_list_order(e.generators[0].iter, depth + 1)
+            if isinstance(e, ast.Name):
+                defs_ = [a_ for a_ in ast.walk(si.node) if isinstance(a_, ast.Assign) and any(
+                    isinstance(t_, ast.Name) and t_.id == e.id for t_ in a_.targets)]
+                if not defs_ and e.id in er.assigns:
+                    return in_list_order(er.assigns[e.id], depth + 1)
+                return bool(defs_) and all(in_list_order(a_.value, depth + 1) for a_ in defs_)
+            return False
+        ctx.check(any(in_list_order(i) for i in iters), "R12.4", gk.qualname, "iteration", loc(gk, gk.node),
                   "the sort key no longer iterates default_sort_list in order", desc="key built by iterating default_sort_list")
 
     # ---------------- R12.5
